@@ -318,6 +318,7 @@ def run(facts, chk, tier, only=None):
                     if s.k == 'assign' and s.rv.k == 'binop' and s.place.proj:
                         ors.append((c, s))
         return ors
+    chk.guard('C11.combine', 'C11.combine:merge:semantics', lambda: check_merge_semantics(facts, chk))
     r = chk.guard('C11.combine', 'C11.combine:merge', combine)
     if r is not None:
         ops = [s.rv.op for _, s in r]
@@ -327,6 +328,62 @@ def run(facts, chk, tier, only=None):
         else:
             chk.violation('C11.combine', 'C11.combine:merge', where=r[0][1].span if r else 'MergeSkaDict::merge',
                           detail='column combiner in MergeSkaDict::merge is %s, expected a single bitwise OR' % ops)
+
+
+def check_merge_semantics(facts, chk):
+    """MergeSkaDict::merge, abstractly interpreted on the two halves of a split build: disjoint sample sets in one
+    index space of size n; k-mer classes {left only, both, right only}; either side may be empty."""
+    from ..absint.interp import Interp, Panic, MapV
+    from ..absint.values import BV, Agg, RefV, Cell, StrV
+    MSD = 'merge_ska_dict::MergeSkaDict'
+    names = [f['name'] for f in facts.adt(MSD)['variants'][0]['fields']]
+    if names != ['k', 'rc', 'n_samples', 'names', 'split_kmers']:
+        raise AnchorLost('MergeSkaDict fields are %s' % names)
+    bad = []
+    n_cases = 0
+    n = 3
+    for left in ([], [0], [0, 1], [1]):
+        for right in ([], [2], [1, 2], [0, 2]):
+            if set(left) & set(right):
+                continue
+            I = Interp(facts, {'IntT': 'u64'})
+
+            def mk(tag, cols, keys):
+                m = MapV()
+                for kid in keys:
+                    row = [BV(8, 0)] * n
+                    for c in cols:
+                        row = row[:c] + [BV(8, 65 + c + 4 * kid)] + row[c + 1:]
+                    if cols:
+                        m.d[('bv', 64, kid)] = (BV(64, kid), Cell(Agg('array', 0, row), 'row'))
+                nm = Agg('array', 0, [StrV(['s%d' % c]) if c in cols else StrV([]) for c in range(n)])
+                return Cell(Agg('adt:' + MSD, 0, [BV(64, 31), BV(1, 1), BV(64, n), nm, m]), tag), m
+            sc, sm = mk('self', left, [1, 2])
+            oc, om = mk('other', right, [2, 3])
+            try:
+                I.call_fn(MSD + '::merge', [RefV(sc), RefV(oc)])
+            except Panic as p:
+                bad.append(((left, right), 'panic %s' % p))
+                continue
+            n_cases += 1
+            got_names = [''.join(x.chars) for x in sc.v.fields[3].fields]
+            want_names = ['s%d' % c if (c in left or c in right) else '' for c in range(n)]
+            if got_names != want_names:
+                bad.append(((left, right), 'names %s, expected %s' % (got_names, want_names)))
+            got = {k[2]: [x.val for x in c.v.fields] for k, (kv, c) in sc.v.fields[4].d.items()}
+            want = {}
+            for kid, cols in ((1, left), (2, left + right), (3, right)):
+                lcols = [c for c in cols if (c in left and kid in (1, 2)) or (c in right and kid in (2, 3))]
+                if lcols:
+                    want[kid] = [(65 + c + 4 * kid) if c in lcols else 0 for c in range(n)]
+            if got != want:
+                bad.append(((left, right), 'rows %s, expected %s' % (got, want)))
+    if bad:
+        chk.violation('C11.combine', 'C11.combine:merge:semantics', where=MSD + '::merge', evals=n_cases,
+                      detail='(left samples, right samples) = %s: %s' % bad[0])
+    else:
+        chk.ok('C11.combine', 'C11.combine:merge:semantics', MSD + '::merge',
+               'join of two halves = union of their columns and names for all %d splits of 3 sample slots (incl. empty sides), 3 k-mer classes' % n_cases, evals=n_cases)
 
 
 def _upname(e):
